@@ -8,6 +8,13 @@ from .. import dmg, evidence, par, scen
 from ..content import BLK
 from .c01 import build_synced_array
 
+
+def _unmatched(res):
+    """violations not covered by an open known finding (those must not stop the exploration early)"""
+    from .. import findings
+    return len([v for v in res["violations"] if findings.match("C04", v[0]) is None])
+
+
 RULE = ("per array (random configuration incl. reduced hash sizes and a hash migration in progress): negative control first "
         "(check, check -a, scrub on the undamaged array: no error, nothing marked), then one corruption at a time, undone "
         "afterwards: every block of every file (first, middle, last partial) and every parity block of every level whose stripe "
@@ -293,7 +300,7 @@ def run_case(case):
                 restore_content()
             res["counters"]["detections_checked"] = res["counters"].get("detections_checked", 0) + len(want_data) + len(want_par)
             undo.restore()
-            if len(res["violations"]) >= 3:
+            if _unmatched(res) >= 3:
                 break
         res["nontrivial"] = len(nt) > 0
         res["counters"]["nontrivial_plans"] = len(nt)
